@@ -127,6 +127,7 @@ type explorer struct {
 	atomFn   func(expr string) (absVal, bool) // pattern atoms (consulted after the exact map)
 	canon    map[string]string                // actual parameter name -> canonical role name used by the rule (renaming a parameter must not matter)
 	stop     func(*ssa.BasicBlock) bool
+	pureMemo bool // a condition that reads no memory and calls nothing is decided once per path, by its rendering
 	maxPaths int
 	out      []*pathOutcome
 	overflow bool
@@ -138,11 +139,18 @@ type exState struct {
 	mem     map[string]symVal  // store-to-load forwarding: location -> last stored value on this path
 	dead    map[string]bool    // locations written on this path whose value is no longer known (atoms do not apply)
 	decided map[ssa.Value]bool // opaque conditions already decided on this path (the same SSA value is the same runtime value)
+	decExpr map[string]bool    // pureMemo: memory-free conditions decided on this path, by rendering
 	po      pathOutcome
 }
 
 func (st *exState) clone() *exState {
 	n := &exState{env: make(map[ssa.Value]symVal, len(st.env)), onPath: make(map[*ssa.BasicBlock]bool, len(st.onPath)), mem: map[string]symVal{}, dead: map[string]bool{}, decided: map[ssa.Value]bool{}}
+	if st.decExpr != nil {
+		n.decExpr = map[string]bool{}
+		for k, v := range st.decExpr {
+			n.decExpr[k] = v
+		}
+	}
 	for k, v := range st.decided {
 		n.decided[k] = v
 	}
@@ -261,11 +269,27 @@ func (e *explorer) walk(st *exState, b, pred *ssa.BasicBlock) {
 					} else {
 						next = b.Succs[1]
 					}
+				} else if d, ok := st.decExpr[cv.expr]; ok && e.pureMemo && pureCond(in.Cond, 0) {
+					if d {
+						next = b.Succs[0]
+					} else {
+						next = b.Succs[1]
+					}
 				} else {
 					// fork
+					pm := e.pureMemo && pureCond(in.Cond, 0)
+					if pm && st.decExpr == nil {
+						st.decExpr = map[string]bool{}
+					}
 					st.decided[in.Cond] = false
+					if pm {
+						st.decExpr[cv.expr] = false
+					}
 					st2 := st.clone()
 					st.decided[in.Cond] = true
+					if pm {
+						st.decExpr[cv.expr] = true
+					}
 					st2.po.conds = append(st2.po.conds, condTaken{cv.expr, false, in.Cond})
 					e.walk(st2, b.Succs[1], b)
 					st.po.conds = append(st.po.conds, condTaken{cv.expr, true, in.Cond})
@@ -821,4 +845,25 @@ func canonParams(f *ssa.Function, roles ...string) map[string]string {
 		}
 	}
 	return m
+}
+
+// pureCond: v is computed from parameters, constants and phis by arithmetic and comparisons only (no load, no call):
+// on one path (which never passes a loop header twice) equal renderings are equal values.
+func pureCond(v ssa.Value, depth int) bool {
+	if depth > 8 {
+		return false
+	}
+	switch v := v.(type) {
+	case *ssa.Const, *ssa.Parameter, *ssa.Phi:
+		return true
+	case *ssa.BinOp:
+		return pureCond(v.X, depth+1) && pureCond(v.Y, depth+1)
+	case *ssa.UnOp:
+		return v.Op != token.MUL && v.Op != token.ARROW && pureCond(v.X, depth+1)
+	case *ssa.Convert:
+		return pureCond(v.X, depth+1)
+	case *ssa.ChangeType:
+		return pureCond(v.X, depth+1)
+	}
+	return false
 }
